@@ -20,7 +20,31 @@ CHECKS = {
 }
 
 NOT_APPLICABLE = {
+ "C01": "whole-pipeline semantics (Erg source -> desugar -> lower -> codegen -> CPython): no function within reach of Verus/Kani carries a contract that expresses it; the pieces it bottoms out in are claimed separately (C04, C14, C15, C16)",
+ "C02": "soundness of the whole type checker against Python run-time classes; Python has no deductive verifier here and the judgement is spread over ~20 kLoC of Context",
+ "C05": "quantifies over all programs through lower.rs/inquire.rs; no function-level contract carries 'every definite error is rejected'",
+ "C07": "totality of the whole checker + code generator over all programs; HIR/Type trees with iterator/closure/hash-collection idioms are outside both verifiers",
+ "C09": "stack exhaustion is not observable in Verus' or CBMC's execution model and the 3.8 kLoC recursive-descent parser over TokenStream/ast is outside both dialects",
+ "C10": "relational property over two inputs of lexer+parser; not expressible as a contract on a function we can bring into a verifier",
+ "C12": "relation between HIR before/after optimisation and run-time behaviour; needs a semantics of HIR",
+ "C13": "needs the target interpreters executing the bytecode; the table-level part is C16",
+ "C17": "validity/behaviour of generated Python source is a property of Python's grammar and ~1.4 kLoC of HIR-walking string concatenation; a contract on escape_str alone would restate the code",
+ "C18": "JSON validity is a grammar property of concatenated Display output produced while walking HIR; no function with a decidable contract within reach",
+ "C19": "schedules / hash-iteration nondeterminism; Kani has no threads, Verus would need the code rewritten onto its permission types",
+ "C20": "threads + whole build; same reason as C19",
+ "C22": "effect checker is a recursive walk over hir::Expr with Dict/Set state; outside both verifiers",
+ "C23": "ownership checker is a recursive walk over hir::Expr with Dict/Set state; outside both verifiers",
+ "C26": "Python code; no deductive verifier for Python in this sandbox (CrossHair concretises int subclasses: sampling, a different family)",
+ "C27": "data files vs. installed interpreters; no function to put a contract on",
+ "C29": "histories over the whole language server",
+ "C30": "whole server + type check + run-time behaviour",
+ "C33": "exhaustiveness is a judgement of the whole checker compared with run-time values",
+ "C34": "inferred dependent types vs. run-time values: whole inference",
 }
+PLANNED = ["C03", "C06", "C08", "C11", "C14", "C15", "C21", "C24", "C25", "C28", "C31", "C32"]
+for _p in PLANNED:
+    if _p not in CHECKS:
+        NOT_APPLICABLE[_p] = "planned (DESIGN.md section 5) but the check is not built yet, so nothing is claimed for it at this commit"
 
 ENGINES = [
  {"name": "extract", "path": "vlib/extract.py", "kind_free_text": "E-X: re-extracts the verbatim text of the functions under contract from /repo on every run; declared rewrite rules (vlib/rules.py, logged per function), splices marked and self-checked (vlib/snippet.py)"},
